@@ -322,6 +322,103 @@ pub fn bump_bytes(rem: &[u8], k: u8, is_str: bool) -> usize {
     n
 }
 
+/// Fixed members of the core family: hand-written definitions that reach emitter and graph paths which random
+/// definitions only hit now and then (each was the trigger of an independently seeded change that one PRNG seed
+/// caught and another missed). They are lexed and judged like every other core subject.
+pub fn path_defs() -> Vec<SubjectDef> {
+    use crate::spec::{DefSpec, LitSpec, PatSpec};
+    let rx = |t: &str| PatSpec::regex(LitSpec::str(t));
+    let rxg = |t: &str| {
+        let mut p = PatSpec::regex(LitSpec::str(t));
+        p.allow_greedy = true;
+        p
+    };
+    let brx = |t: &[u8]| PatSpec::regex(LitSpec::bytes(t.to_vec()));
+    let tok = |t: &str| PatSpec::token(LitSpec::str(t));
+    let pr = |mut p: PatSpec, n: usize| {
+        p.priority = Some(n);
+        p
+    };
+    let core = |utf8: bool, skips: Vec<PatSpec>, variants: Vec<Vec<PatSpec>>, skip_log: bool| SubjectDef {
+        family: "core".into(),
+        def: DefSpec { utf8, subpatterns: vec![], skips, variants },
+        skip_log,
+        has_value: vec![],
+        error_cb: false,
+        twin: false,
+    };
+    vec![
+        // comparison emitter on a full-range class with isolated holes, not on a self edge (byte mode)
+        core(false, vec![], vec![vec![brx(b"'(?-u:[^'])'")], vec![tok("'")], vec![rx("[a-z]+")], vec![brx(b"\\\\(?-u:.)")], vec![tok("\\")]], false),
+        // a callback-less skip that only loops on a single-byte class and extends a token; keywords with dead-end prefixes
+        core(true, vec![rxg("//[ -~]*"), rx("[ \\n]+")], vec![vec![tok("/")], vec![tok("let")], vec![rx("[0-9]+")], vec![tok("=")], vec![tok("==")]], false),
+        // look-ahead: delayed accepts, end-of-input edges, a look-ahead branch next to a plain branch of one pattern
+        core(true, vec![rx(" ")], vec![vec![pr(rx("not(?-u:\\b)|!"), 10)], vec![pr(rx("[a-z]+"), 2)], vec![pr(rx("[0-9]|[a-z]+$"), 5)], vec![pr(rx("ab|a(?-u:\\b)"), 8)]], true),
+        core(true, vec![], vec![vec![pr(rx("a+$"), 6)], vec![pr(rx("a+"), 2)], vec![pr(rx("b(?m:$)"), 3)], vec![tok("\\n")], vec![rx("c+")]], false),
+        // a non-root state with more than two edge classes (jump table) where lexing can fail
+        core(true, vec![rx(" ")], vec![vec![tok("==")], vec![tok("=>")], vec![tok("=~")], vec![tok("=!")], vec![tok("x")], vec![rx("<[a-c]>|<=|<<|<-")]], false),
+        // a class range starting at 0x00 that closes a token (byte mode)
+        core(false, vec![rx(" ")], vec![vec![rx("[a-z]+")], vec![brx(b"[a-z]+[\\x00-\\x20]")], vec![brx(b"[0-9]+[\\x7f-\\xff]")]], false),
+        // more than eight loop classes (second look-up table)
+        core(
+            true,
+            vec![rx(" +")],
+            vec![
+                vec![rx("[a-c]+0")], vec![rx("[d-f]+1")], vec![rx("[g-i]+2")], vec![rx("[j-l]+3")], vec![rx("[m-o]+4")], vec![rx("[p-r]+5")], vec![rx("[s-u]+6")],
+                vec![rx("[v-x]+7")], vec![rx("[yz]+8")], vec![rx("[A-Z]+9")], vec![rx("[0-9]+_")],
+            ],
+            false,
+        ),
+        // end anchors next to patterns that fail on a multi-byte char right after a shared prefix
+        core(true, vec![], vec![vec![rx(".\\z\\d")], vec![pr(tok(" c"), 3)], vec![rx("(?:λ日K){2,}(?m:$)")], vec![rx("0\\.(?m:$)"), rx("c\\. |1Σ\\z")]], false),
+        // non-ASCII literals and classes whose near misses share lead / continuation bytes
+        core(true, vec![rx(" ")], vec![vec![rx("\\$[α-ω]+")], vec![tok("é")], vec![tok("€")], vec![tok("😀")], vec![rx("x+é")], vec![rx("[一-龥]+")]], true),
+    ]
+}
+
+/// Fixed members of the callbacks family: every documented return type on a variant kind that admits it, in every
+/// attachment form, with patterns (`<letter>[0-9]{1,2}`) whose matches run through all decisions of each callback.
+pub fn table_defs() -> Vec<SubjectDef> {
+    use crate::spec::{CbSpec, DefSpec, LitSpec, PatSpec};
+    let mut out = Vec::new();
+    for (error_cb, salt0) in [(false, 11u32), (true, 23u32)] {
+        // unit variants: return types 0..=10
+        let mut variants = Vec::new();
+        for ret in 0u8..=10 {
+            let letter = (b'a' + ret) as char;
+            let mut p = PatSpec::regex(LitSpec::str(format!("{letter}[0-9]{{1,2}}")));
+            p.callback = Some(CbSpec { ret, salt: salt0 + ret as u32, bump: if ret % 5 == 4 { 1 } else { 0 }, form: ret % 6 });
+            variants.push(vec![p]);
+        }
+        variants.push(vec![PatSpec::token(LitSpec::str("z"))]);
+        let mut has_value = vec![false; variants.len()];
+        let mut sk = PatSpec::regex(LitSpec::str(" "));
+        sk.callback = None;
+        out.push(SubjectDef { family: "callbacks".into(), def: DefSpec { utf8: true, subpatterns: vec![], skips: vec![sk], variants: variants.clone() }, skip_log: false, has_value: std::iter::once(false).chain(has_value.iter().copied()).collect(), error_cb, twin: false });
+        // value variants (11..=15) and skips with callbacks (16..=19)
+        let mut variants = Vec::new();
+        let mut skips = Vec::new();
+        for ret in 16u8..=19 {
+            let letter = (b'A' + ret - 16) as char;
+            let mut p = PatSpec::regex(LitSpec::str(format!("{letter}[0-9]{{1,2}}")));
+            p.callback = Some(CbSpec { ret, salt: salt0 + ret as u32, bump: 0, form: 2 + ret % 2 });
+            skips.push(p);
+        }
+        for ret in 11u8..=15 {
+            let letter = (b'a' + ret) as char;
+            let mut p = PatSpec::regex(LitSpec::str(format!("{letter}[0-9]{{1,2}}")));
+            p.callback = Some(CbSpec { ret, salt: salt0 + ret as u32, bump: if ret == 13 { 1 } else { 0 }, form: ret % 6 });
+            variants.push(vec![p]);
+        }
+        variants.push(vec![PatSpec::token(LitSpec::str("z"))]);
+        has_value = vec![false; skips.len()];
+        has_value.extend(std::iter::repeat(true).take(5));
+        has_value.push(false);
+        out.push(SubjectDef { family: "callbacks".into(), def: DefSpec { utf8: true, subpatterns: vec![], skips, variants }, skip_log: false, has_value, error_cb, twin: false });
+    }
+    out
+}
+
 /// Fixed stress family (C06 stack clause, C20 adversarial shapes): hand-picked definitions.
 pub fn stress_defs() -> Vec<SubjectDef> {
     use crate::spec::{CbSpec, DefSpec, LitSpec, PatSpec};
